@@ -1,7 +1,68 @@
 (** C08 - State recovery replays exactly the missed packets, or falls back cleanly.
-    Statements only; every proof is `exact <lemma>`. *)
-From SioV Require Import Base.GoSem Adapter.Session.
+    Statements only; every proof is `exact <lemma>`.
 
-(** placeholder while the proofs are being written *)
-Theorem C08_model_runs : final 10 [(0%Z, OBroadcast KEvent 1%N (mkOpts [] []))] = mkSt [] [mkPkt 1%N 0%Z (mkOpts [] [])].
-Proof. reflexivity. Qed.
+    Vocabulary (Adapter/Session.v): a history [h] is a list of timed operations on the
+    session-aware adapter (Broadcast / PersistSession / clean-up pass / RestoreSession);
+    [final W h] is the adapter state after [h] with recovery window [W]; [emitted h] is the list of
+    packets the history has broadcast with an offset id, in emission order (ground truth,
+    independent of the adapter's log); [last_persist pid h None] the session last persisted under
+    [pid]; [selected s p] = shouldIncludePacket(session rooms, packet options).
+    Hypothesis about the id generator (yeast): ids along a history are distinct. *)
+From SioV Require Import Base.GoSem Adapter.Session Adapter.SessionProofs.
+Open Scope Z_scope.
+
+(** A successful restore returns exactly the selected packets emitted after the offset packet, in
+    emission order - whatever clean-up passes, other restores and persists the history contains. *)
+Theorem C08_restore_exact : forall W h t pid off s ms,
+  snd (step W t (ORestore pid off) (final W h)) = Some (Some (s, ms)) ->
+  exists pre p post,
+    emitted h = pre ++ p :: post /\ p_id p = off /\ ms = filter (selected s) post.
+Proof. exact restore_exact. Qed.
+
+(** Never recovered with a gap: every packet emitted after THE packet carrying the offset and
+    selected by the session is among the replayed ones. *)
+Theorem C08_no_gap : forall W h t pid off s ms,
+  NoDup (map p_id (emitted h)) ->
+  snd (step W t (ORestore pid off) (final W h)) = Some (Some (s, ms)) ->
+  forall pre p post q, emitted h = pre ++ p :: post -> p_id p = off ->
+    In q post -> selected s q = true -> In q ms.
+Proof. exact no_gap_in. Qed.
+
+(** None twice. *)
+Theorem C08_restore_nodup : forall W h t pid off s ms,
+  NoDup (map p_id (emitted h)) ->
+  snd (step W t (ORestore pid off) (final W h)) = Some (Some (s, ms)) ->
+  NoDup (map p_id ms).
+Proof. exact restore_nodup. Qed.
+
+(** A client that had received every selected packet up to its offset ends up, after the replay,
+    with every selected packet of the whole history exactly once and in emission order. *)
+Theorem C08_exactly_once : forall W h t pid off s ms,
+  NoDup (map p_id (emitted h)) ->
+  snd (step W t (ORestore pid off) (final W h)) = Some (Some (s, ms)) ->
+  forall pre p post, emitted h = pre ++ p :: post -> p_id p = off ->
+    filter (selected s) (pre ++ [p]) ++ ms = filter (selected s) (emitted h).
+Proof. exact exactly_once. Qed.
+
+(** The restored session is the one last persisted under that private id (same socket id, same
+    rooms), and the reconnection is within the window. *)
+Theorem C08_same_sid_rooms : forall W h t pid off s ms,
+  snd (step W t (ORestore pid off) (final W h)) = Some (Some (s, ms)) ->
+  exists td, last_persist pid h None = Some (s, td) /\ s_pid s = pid /\ t <= td + W.
+Proof. exact same_sid_rooms. Qed.
+
+(** Falling back: unknown session, expired session, unknown offset. *)
+Theorem C08_fallback_unknown_session : forall W h t pid off,
+  last_persist pid h None = None ->
+  snd (step W t (ORestore pid off) (final W h)) = Some None.
+Proof. exact fallback_unknown_session. Qed.
+
+Theorem C08_fallback_expired_session : forall W h t pid off s td,
+  last_persist pid h None = Some (s, td) -> td + W < t ->
+  snd (step W t (ORestore pid off) (final W h)) = Some None.
+Proof. exact fallback_expired_session. Qed.
+
+Theorem C08_fallback_unknown_offset : forall W h t pid off,
+  ~ In off (map p_id (emitted h)) ->
+  snd (step W t (ORestore pid off) (final W h)) = Some None.
+Proof. exact fallback_unknown_offset. Qed.
